@@ -116,7 +116,7 @@ func genYModsCase(r *Rng) Case {
 		}
 	}
 	// submodules (of mc): mc includes mcs1, which may include mcs2; mc may or may not list mcs2 itself
-	if r.Chance(35) {
+	if r.Chance(50) {
 		s1 := mspec{"name": "mcs1", "includes": []any{}}
 		s2 := mspec{"name": "mcs2", "includes": []any{}}
 		inc := []any{"mcs1"}
@@ -132,6 +132,12 @@ func genYModsCase(r *Rng) Case {
 			s1["imports"] = []any{"ma"} // a module mc imports anyway
 		}
 		all["mc"]["subs"] = []any{s1, s2}
+		if len(inc) == 1 && len(carr(s1, "includes")) == 1 && r.Chance(60) {
+			// a chain of three: mc includes mcs1 only, mcs1 mcs2, mcs2 mcs3 — what mcs3 imports reaches mc through two others
+			s3 := mspec{"name": "mcs3", "includes": []any{}}
+			s2["includes"] = []any{"mcs3"}
+			all["mc"]["subs"] = []any{s1, s2, s3}
+		}
 		all["mc"]["includes"] = inc
 	}
 	c := Case{"k": "ymods", "mods": specs, "extraImports": []any{}, "fault": "none"}
@@ -144,11 +150,12 @@ func genYModsCase(r *Rng) Case {
 		f := pick(r, []string{"feature-cycle", "identity-cycle", "typedef-cycle-used", "typedef-cycle-unused", "grouping-cycle", "grouping-cycle-nested",
 			"import-cycle", "import-self", "import-missing", "unknown-prefix", "unknown-typedef", "unknown-grouping", "unknown-feature", "unknown-identity",
 			"dup-feature", "dup-identity", "dup-typedef", "dup-grouping", "bad-augment-path", "dev-race", "include-cycle", "include-missing",
-			"sub-import-missing", "sub-import-cycle", "orphan-submodule", "orphan-submodule", "ref-status", "ref-status", "ref-status"})
+			"sub-import-missing", "sub-import-cycle", "orphan-submodule", "orphan-submodule", "ref-status", "ref-status", "ref-status", "sub-identity",
+			"sub-import-missing", "sub-import-cycle", "sub-import-missing", "sub-import-cycle"})
 		if modsOnlyStatus {
 			f = "ref-status"
 		}
-		if (f == "include-cycle" || f == "include-missing" || f == "sub-import-missing" || f == "sub-import-cycle") && all["mc"]["subs"] == nil {
+		if (f == "include-cycle" || f == "include-missing" || f == "sub-import-missing" || f == "sub-import-cycle" || f == "sub-identity") && all["mc"]["subs"] == nil {
 			f = "feature-cycle"
 		}
 		c["fault"] = f
@@ -207,16 +214,24 @@ func genYModsCase(r *Rng) Case {
 			c["extraImports"] = []any{[]any{"ma", "mc"}}
 		case "sub-import-missing":
 			// an import written only in a submodule is an import of the module
-			carr(all["mc"], "subs")[0].(mspec)["imports"] = []any{"nowhere"}
+			deep := carr(all["mc"], "subs")[len(carr(all["mc"], "subs"))-1].(mspec) // the one furthest from the module
+			if r.Chance(40) {
+				deep = carr(all["mc"], "subs")[0].(mspec)
+			}
+			deep["imports"] = []any{"nowhere"}
 			if r.Chance(50) {
 				// ... under a prefix the module itself uses for another import (prefixes are per file)
-				carr(all["mc"], "subs")[0].(mspec)["pfxAs"] = "ma"
+				deep["pfxAs"] = "ma"
 			}
 		case "sub-import-cycle":
 			// md imports mc, and only mc's submodule imports md
-			carr(all["mc"], "subs")[0].(mspec)["imports"] = []any{"md"}
+			deep := carr(all["mc"], "subs")[len(carr(all["mc"], "subs"))-1].(mspec)
+			if r.Chance(40) {
+				deep = carr(all["mc"], "subs")[0].(mspec)
+			}
+			deep["imports"] = []any{"md"}
 			if r.Chance(50) {
-				carr(all["mc"], "subs")[0].(mspec)["pfxAs"] = "ma"
+				deep["pfxAs"] = "ma"
 			}
 			md := mspec{"name": "md"}
 			specs = append(specs, md)
@@ -237,6 +252,10 @@ func genYModsCase(r *Rng) Case {
 					}
 				}
 			}
+		case "sub-identity":
+			// an identity defined in a submodule, and an identityref to it there: the identities of submodules are not
+			// collected, the reference is an error (before the repair: a nil dereference)
+			carr(all["mc"], "subs")[r.Intn(len(carr(all["mc"], "subs")))].(mspec)["ident"] = true
 		case "orphan-submodule":
 			// a submodule of a module that is not supplied (alone it would be the only text of a set: here it comes with others)
 			c["orphan"] = pick(r, []string{"nowhere", "mz"})
@@ -444,6 +463,9 @@ func renderSub(parent string, s mspec) string {
 	}
 	for _, i := range carr(s, "includes") {
 		fmt.Fprintf(&b, "  include %s;\n", i.(string))
+	}
+	if cbool(s, "ident") {
+		fmt.Fprintf(&b, "  identity %sbase;\n  identity %sder { base %sbase; }\n  leaf %sidl { type identityref { base %sbase; } }\n", n, n, n, n, n)
 	}
 	fmt.Fprintf(&b, "  container %stop { leaf %sl { type string; } }\n}\n", n, n)
 	return b.String()
